@@ -3,7 +3,19 @@
 
 K_MODCMP = {"unit": "modcmp", "inject": "elvis-core/src/protocols/tcp/tcb/modular_cmp.rs", "crate": "elvis-core"}
 
+K_SUBNET = {"unit": "subnet", "inject": "elvis-core/src/protocols/arp/subnetting.rs", "crate": "elvis-core"}
+
 PROPS = {
+    "C09": {
+        "units": ["subnet"],
+        "kani": [K_SUBNET],
+        "level": "proof",
+        "technique": "Verus contracts (bit-vector) on the extracted subnetting.rs / ipv4_address.rs / ip_table.rs functions + Kani full-domain harnesses on the real crate",
+        "level_text": "Mask/network arithmetic: every function of Ipv4Mask / Ipv4Net / Ipv4Address carries a postcondition against the interval [id, broadcast] semantics, discharged by Verus for all inputs and re-proved by loop-free Kani harnesses on the compiled crate.",
+        "level_note": "Trusted: Verus/Z3, Kani/CBMC; assumed specs of u32::{to,from}_be_bytes, count_ones, Result::or, RangeInclusive::{start,end,==}, derive(PartialEq/Ord) on the [u8;4]/u32 newtypes (each validated by a Kani h_assume_* harness against real core). CIDR text parsing (std::net::Ipv4Addr::from_str) is not decided. `impl From<(Ipv4Address,Ipv4Mask)> for Ipv4Net` is not under contract.",
+        "assumptions": ["Ipv4Mask values are only built by from_bitcount/try_from (private field) so mask.wf() is a type invariant", "CIDR text clause undecided"],
+        "explanation": "subnet arithmetic contracts; routing-table clause see ip_table obligations",
+    },
     "C12": {
         "units": ["modcmp"],
         "kani": [K_MODCMP],
